@@ -12,26 +12,46 @@ CONSTANTS Names,    \* exact service names used as sources
           MaxOps,   \* bound on the number of writes
           Mode      \* "perm": only creations of new keys ; "edit": also updates and deletes
 
-VARIABLES I, rep, hist
-vars == <<I, rep, hist>>
+VARIABLES I,     \* the set of intentions
+          J,     \* identity-addressed representations only: set of [id, ixn] with I = SetOf(J)
+          rep, hist
+vars == <<I, J, rep, hist>>
 
 Acts == {"allow", "deny", "l7"}
 Universe(r) == {i \in [src : Names \cup {WILD}, peer : Peers, dst : Dsts, act : Acts] : Representable(r, i)}
 
-Init == I = {} /\ rep \in Reps /\ hist = <<>>
+Init == I = {} /\ J = {} /\ rep \in Reps /\ hist = <<>>
 
 DoUpsert ==
-  \E i \in Universe(rep) :
-    /\ Mode = "perm" => \A j \in I : Key(j) # Key(i)
-    /\ i \notin I
-    /\ Cardinality(Upsert(I, i)) <= MaxN
-    /\ I' = Upsert(I, i)
-    /\ hist' = Append(hist, [op |-> "upsert", ixn |-> i])
+  /\ rep \notin IdReps
+  /\ \E i \in Universe(rep) :
+       /\ Mode = "perm" => \A j \in I : Key(j) # Key(i)
+       /\ i \notin I
+       /\ Cardinality(Upsert(I, i)) <= MaxN
+       /\ I' = Upsert(I, i)
+       /\ hist' = Append(hist, [op |-> "upsert", id |-> "", ixn |-> i])
+  /\ UNCHANGED J
 DoDelete ==
-  /\ Mode = "edit"
-  /\ \E i \in I : I' = Delete(I, i) /\ hist' = Append(hist, [op |-> "delete", ixn |-> i])
+  /\ rep \notin IdReps /\ Mode = "edit"
+  /\ \E i \in I : I' = Delete(I, i) /\ hist' = Append(hist, [op |-> "delete", id |-> "", ixn |-> i])
+  /\ UNCHANGED J
 
-Next == Len(hist) < MaxOps /\ (DoUpsert \/ DoDelete) /\ UNCHANGED rep
+\* identity-addressed writes: create under the first unused identity (also creations the store must refuse:
+\* the key is taken), update ANY stored identity to ANY other content (source and/or destination may change
+\* between exact and wildcard; through config entries only inside the same destination), remove by identity
+IdSeq == <<"i1", "i2", "i3", "i4", "i5">>
+FreeId == IdSeq[CHOOSE k \in DOMAIN IdSeq : IdSeq[k] \notin {j.id : j \in J} /\ \A m \in 1..(k - 1) : IdSeq[m] \in {j.id : j \in J}]
+IdStep(o) == J' = IdApply(J, o) /\ I' = SetOf(IdApply(J, o)) /\ hist' = Append(hist, o)
+DoCreate == rep \in IdReps /\ Cardinality(J) < MaxN
+            /\ \E i \in Universe(rep) : IdStep([op |-> "create", id |-> FreeId, ixn |-> i])
+DoUpdate == rep \in IdReps
+            /\ \E j \in J, i \in Universe(rep) :
+                 /\ i # j.ixn
+                 /\ (rep = "ce-legacyid" => i.dst = j.ixn.dst)
+                 /\ IdStep([op |-> "update", id |-> j.id, ixn |-> i])
+DoRemove == rep \in IdReps /\ \E j \in J : IdStep([op |-> "remove", id |-> j.id, ixn |-> j.ixn])
+
+Next == Len(hist) < MaxOps /\ (DoUpsert \/ DoDelete \/ DoCreate \/ DoUpdate \/ DoRemove) /\ UNCHANGED rep
 Spec == Init /\ [][Next]_vars
 
 View == <<I, rep>>
@@ -46,7 +66,8 @@ Dests   == (Dsts \ {WILD}) \cup QNames
 
 InvKeys  == KeysUnique(I)
 InvNoTie == NoAmbiguousTie(I, Callers, Dests)
-InvFold  == Fold({}, hist) = I
+InvFold  == IF rep \in IdReps THEN SetOf(IdFold({}, hist)) = I /\ I = SetOf(J) /\ Cardinality(J) = Cardinality(I)
+            ELSE Fold({}, hist) = I
 
 \* all sequences over S without repetition that are precedence-sorted
 RECURSIVE PermsOf(_)
@@ -74,7 +95,7 @@ InvFirstMatch ==
 
 \* order independence on the model: every permutation of a history of creations folds to the same set
 InvPermFold ==
-  (\A k \in DOMAIN hist : hist[k].op = "upsert") /\ Cardinality({Key(hist[k].ixn) : k \in DOMAIN hist}) = Len(hist)
+  rep \notin IdReps /\ (\A k \in DOMAIN hist : hist[k].op = "upsert") /\ Cardinality({Key(hist[k].ixn) : k \in DOMAIN hist}) = Len(hist)
     => \A p \in PermsOf({hist[k] : k \in DOMAIN hist}) : Fold({}, p) = I
 
 \* precedence really orders by destination first: an exact destination beats any wildcard destination
